@@ -2,7 +2,7 @@
 # merge an agent branch; generated Makefiles are untracked on main, so drop them from the merge
 cd /verif
 git merge --no-edit "$1" >/dev/null 2>&1
-git rm -q -f coq/Makefile coq/Makefile.conf coq/.Makefile.d 2>/dev/null
+for f in coq/Makefile coq/Makefile.conf coq/.Makefile.d; do git rm -q -f $f 2>/dev/null; done
 rm -f coq/Makefile coq/Makefile.conf coq/.Makefile.d
 python3 /verif/tools/union_coqproject.py; git add coq/_CoqProject
 git checkout --ours evidence 2>/dev/null; git add evidence 2>/dev/null
